@@ -619,3 +619,31 @@ func (st *State) ProveSimplified(f lin.Form) bool {
 	}
 	return lin.Prove(g, ip, facts, 3)
 }
+
+// ProveZeroSplit proves d == 0 by case analysis on the undecided indicator conditions that occur in d (at most
+// depth nested splits): under each truth value the indicator is a constant and the condition is a fact.
+func (ip *Interp) ProveZeroSplit(st *State, d lin.Form, depth int) bool {
+	d = ip.SimplifyForm(d, st)
+	if d.IsConst() {
+		return d.C == 0
+	}
+	if st.ProveSimplified(d) && st.ProveSimplified(d.Scale(-1)) {
+		return true
+	}
+	if depth <= 0 {
+		return false
+	}
+	for _, s := range d.Syms() {
+		for _, fa := range splitProduct(s) {
+			c, ok := ip.indConds[fa]
+			if !ok || st.Decide(c) != Maybe {
+				continue
+			}
+			t, e := st.clone(), st.clone()
+			t.Assume(c, true)
+			e.Assume(c, false)
+			return ip.ProveZeroSplit(t, d, depth-1) && ip.ProveZeroSplit(e, d, depth-1)
+		}
+	}
+	return false
+}
